@@ -199,6 +199,7 @@ class Ctx:
         self.env = {}  # name -> object, namespace for known-finding predicates
         self.known = known or []  # list of dict(id, property, harness, obligation, where)
         self.notes = {}
+        self.last = self.solver
         self.cross = []  # (obligation, outcome) of sampled second-opinion queries
 
     # ------------------------------------------------------------ solver
@@ -214,6 +215,15 @@ class Ctx:
         self.nsolve += 1
         t0 = _time.perf_counter()
         r = self.solver.check(*extra)
+        self.last = self.solver
+        if r == z3.unknown:
+            # one retry with a fresh solver and a longer budget (a loaded machine must not turn a
+            # decidable query into an inconclusive run)
+            s2 = z3.Solver()
+            s2.set("timeout", SOLVER_TIMEOUT_MS * 4)
+            s2.add(self.solver.assertions())
+            r = s2.check(*extra)
+            self.last = s2
         self.solve_s += _time.perf_counter() - t0
         if r == z3.unknown:
             raise Unsupported("solver returned unknown: " + self.solver.reason_unknown())
@@ -223,7 +233,7 @@ class Ctx:
         if self.model is not None:
             return True
         if self._check():
-            self.model = self.solver.model()
+            self.model = self.last.model()
             return True
         return False
 
@@ -389,14 +399,14 @@ class Ctx:
             if is_lit_false(f):
                 continue
             if self._check(neg, f):
-                m = self.solver.model()
+                m = self.last.model()
                 self.failures.append(dict(obligation=name, known=k["id"], inputs=self._model_inputs(m),
                                           tags=list(self.tags)))
                 self.results.append((name, "known:" + k["id"]))
                 hit = True
         rest = [z3.Not(f) for _, f in kforms if not is_lit_false(f)]
         if self._check(neg, *rest):
-            m = self.solver.model()
+            m = self.last.model()
             self.failures.append(dict(obligation=name, known=None, inputs=self._model_inputs(m),
                                       tags=list(self.tags)))
             self.results.append((name, "fail"))
